@@ -13,6 +13,7 @@ def run(rep, W, ctx):
     S.c05_err(rep, W)
     S.c05_map(rep, W)
     S.c05_drop(rep, W)
+    S.s_failstop_all(rep, W)          # a failed storage step is never retried / patched up inside the transaction
     S.s_sql_closed(rep, W)
     S.s_txn2(rep, W)
     for b in (W.op("add_version"), W.op("add_snapshot"), W.handler("add_version")):
